@@ -111,6 +111,7 @@ void pmc_run(const char* config) {
     mv_init();
     mvp::use_fast_stacks();
     mv_time_deviations(strstr(extra, "tdev") != nullptr);
+    mv_tso(strstr(extra, "tso") != nullptr); mv_switch_points(0);     // built with -DPHOTON_VERIF for the TSC hook only
     std::vector<pthread_t> vt;
     for (int cpu = 0; cpu < st.nvcpu; cpu++) {
         vt.push_back(mvp::spawn_vcpu([cpu] {
@@ -160,6 +161,9 @@ static const PmcConfig CFG[] = {
     {"m0n:Z|L",                  3, {1,2}, {0,0}, {0,0}, {0,0}, "zero timeout"},
     {"R0n:N|L",                  3, {1,2}, {0,0}, {0,0}, {0,0}, "recursive mutex, nested lock"},
     {"m0n:L|L|L",                2, {1,2}, {0,0}, {0,0}, {0,0}, "three vCPUs"},
+    {"m0n:L|L:tso",              3, {1,2}, {0,0}, {1,1}, {2,3}, "x86-TSO: one store per thread may linger in the store buffer"},
+    {"m0c:L|L:tso",              3, {1,2}, {0,0}, {1,1}, {2,3}, ""},
+    {"m0n:L|L,i0:tso",           2, {1,1}, {0,0}, {1,1}, {2,2}, ""}, 
 };
 const PmcConfig* pmc_configs(int* n) { *n = sizeof CFG / sizeof CFG[0]; return CFG; }
 const char* pmc_property(void) { return "C01"; }
